@@ -36,10 +36,10 @@ def run(ctx):
                         'Save KV list applied with nil value = delete; goleveldb/memdb trusted',
                         'TLC bounds: PKs<=3, Vals<=3, MaxOps<=6, MaxSaves<=3']
     if q:
-        ctx.tlc_mc('Table_MC', 'Table_MCq.cfg', workers=4, timeout=1800)
+        _mc(ctx, 'Table_MC', 'Table_MCq.cfg', workers=4, timeout=1800)
     else:
-        ctx.tlc_mc('Table_MC', 'Table_MCq.cfg', workers=4, timeout=3600, coverage=True)
-        ctx.tlc_mc('Table_MC', 'Table_MC.cfg', workers=4, timeout=7200)
+        _mc(ctx, 'Table_MC', 'Table_MCq.cfg', workers=4, timeout=3600, coverage=True)
+        _mc(ctx, 'Table_MC', 'Table_MC.cfg', workers=4, timeout=7200)
     b = vlib.build(DRIVER)
     # exhaustive leg
     allb = ctx.tlc_genall('Table_All', 'Table_Allq.cfg' if q else 'Table_All.cfg', timeout=7200)
@@ -48,6 +48,7 @@ def run(ctx):
         combos += [dict(db='local', fresh=0, salt=2), dict(db='mem', fresh=0, salt=3, delrow=1)]
     for i, o in enumerate(combos):
         ctx.replay(b, allb, opts=o, par=8, count=(i == 0), timeout=7200)
+    _replay_selftest(ctx, b, allb, dict(db='mem'))
     ctx.exhaustive = False  # exhaustive over the abstract single-key histories, sampled concretisation and interleavings
     ctx.extra['exhaustive_small_config'] = dict(cfg='Table_Allq.cfg' if q else 'Table_All.cfg', behaviours=len(allb))
     if not q:
@@ -64,7 +65,7 @@ def run(ctx):
     # join-table leg (TableJoin.tla): a real JoinTable over two real tables
     jn = 250 if q else 1500
     if not q:
-        ctx.tlc_mc('TableJoin', 'TableJoin_MC.cfg', workers=2, timeout=3600)
+        _mc(ctx, 'TableJoin', 'TableJoin_MC.cfg', workers=2, timeout=3600)
     # (a) one call per row and window, fk of a saved left row fixed: must agree, also with prefix-related / '-' keys
     js = ctx.tlc_sim('TableJoin', 'TableJoin_GenSingle.cfg', num=jn, depth=24, seed=ctx.seed * 100 + 50, timeout=3600)
     ctx.replay(b, js, opts=dict(db='mem', rpk='hostile', fresh=0, salt=20), par=8, timeout=7200)
@@ -81,6 +82,44 @@ def run(ctx):
         ctx.replay(b, jf, opts=dict(db='mem', rpk='plain', fresh=0, salt=24), par=8, timeout=7200)
     ctx.validate_recording(b, 'Table_Trace', 'Table_Trace.cfg', opts=dict(n=15 if q else 150, keys=5, vals=3, pays=3, depth=40),
                            selftest=True, timeout=7200)
+
+
+def _replay_selftest(ctx, b, bs, opts, par=1):
+    """Anti-vacuity: one behaviour with one predicted reply flipped must be rejected by the replayer."""
+    import copy
+    import os
+    bad = None
+    for cand in bs[:50]:
+        for i, st in enumerate(cand['steps']):
+            if i > 0 and st.get('ret') == 'ok' and st.get('op') not in ('Save', 'Load', 'JLoad', 'New'):
+                bad = copy.deepcopy(cand)
+                bad['id'] = 'selftest'
+                bad['steps'][i]['ret'] = 'flipped'
+                break
+        if bad:
+            break
+    if not bad:
+        ctx.notes.append('replay selftest: no corruptible behaviour')
+        return
+    n = len(ctx.mismatches)
+    ctx.replay(b, [bad], opts=opts, par=par, count=False, name='selftest-%d.ndjson' % n)
+    got = ctx.mismatches[n:]
+    del ctx.mismatches[n:]
+    for m in got:
+        try:
+            os.remove(m.get('replay') or '')
+        except OSError:
+            pass
+    if not got:
+        raise vlib.Broken('binding self-test failed: a behaviour with a flipped reply was accepted by the replayer')
+    ctx.extra['selftest_flipped_reply_rejected'] = True
+
+
+def _mc(ctx, module, cfg, **kw):
+    r = ctx.tlc_mc(module, cfg, **kw)
+    if kw.get('coverage') and r.get('zero_actions'):
+        raise vlib.Broken('vacuous model: actions never taken in %s/%s: %s' % (module, cfg, r['zero_actions'][:5]))
+    return r
 
 
 import vlib  # noqa: E402
